@@ -6,6 +6,7 @@ import (
 	"encoding/hex"
 	"errors"
 	"fmt"
+	"math/bits"
 	"testing"
 
 	"github.com/tonkeeper/tongo/boc"
@@ -237,6 +238,122 @@ var depthCheck = &core.Check{Name: "c02/depth", Fn: func(c *core.Ctx) error {
 	if !errors.Is(err, boc.ErrDepthIsTooBig) {
 		return fmt.Errorf("chain of depth %d: error %v, want ErrDepthIsTooBig", depth, err)
 	}
+	if err := refusedAllWays(t); err != nil {
+		return fmt.Errorf("chain of depth %d: %v", depth, err)
+	}
+	return nil
+}}
+
+// refusedAllWays: a cell that has no representation (some depth above 1024) is refused by every hashing entry
+// point, every time it is asked, with and without a caching hasher.
+func refusedAllWays(t *boc.Cell) error {
+	reused := boc.NewHasher()
+	for round := 0; round < 3; round++ {
+		if h, err := t.Hash(); !errors.Is(err, boc.ErrDepthIsTooBig) {
+			return fmt.Errorf("round %d: Hash() = %x, %v, want ErrDepthIsTooBig", round, h, err)
+		}
+		if h, err := t.HashString(); !errors.Is(err, boc.ErrDepthIsTooBig) {
+			return fmt.Errorf("round %d: HashString() = %q, %v, want ErrDepthIsTooBig", round, h, err)
+		}
+		if h, err := reused.HashString(t); !errors.Is(err, boc.ErrDepthIsTooBig) {
+			return fmt.Errorf("round %d: HashString on one reused Hasher = %q, %v, want ErrDepthIsTooBig", round, h, err)
+		}
+		if h, err := reused.Hash(t); !errors.Is(err, boc.ErrDepthIsTooBig) {
+			return fmt.Errorf("round %d: Hash on one reused Hasher = %x, %v, want ErrDepthIsTooBig", round, h, err)
+		}
+		if h, err := boc.NewHasher().HashString(t); !errors.Is(err, boc.ErrDepthIsTooBig) {
+			return fmt.Errorf("round %d: HashString on a fresh Hasher = %q, %v, want ErrDepthIsTooBig", round, h, err)
+		}
+	}
+	return nil
+}
+
+// levelDepthCheck: the depth limit applies at every level. An ordinary cell stands over a pruned branch that
+// stores, for one of its levels, a depth around the limit (and small depths for the others); the parent's
+// depth at that level is the stored one plus one. tape: mask of the pruned branch 1..7, index of the stored
+// level that carries the large depth, the large depth, whether a second (ordinary) child is present, seed.
+var levelDepthCheck = &core.Check{Name: "c02/level-depth", Fn: func(c *core.Ctx) error {
+	mask := uint8(1 + c.Intn("mask", 7))
+	n := bits.OnesCount8(mask)
+	at := c.Intn("at", 3) % n
+	big := c.Intn("depth", 1<<16)
+	second := c.Intn("second", 2) == 1
+	seed := c.U64("seed")
+	c.Note("pruned mask", mask)
+	c.Note("stored depths", fmt.Sprintf("index %d of %d is %d, others small", at, n, big))
+	c.NonTrivial(mask, at, big, second)
+	var b ref.Bits
+	b = b.AppendUint(1, 8).AppendUint(uint64(mask), 8)
+	sm := core.NewSplitMix(seed)
+	for i := 0; i < n; i++ {
+		for k := 0; k < 4; k++ {
+			b = b.AppendUint(sm.Next(), 64)
+		}
+	}
+	for i := 0; i < n; i++ {
+		d := 1 + i
+		if i == at {
+			d = big
+		}
+		b = b.AppendUint(uint64(d), 16)
+	}
+	pruned := ref.NewRCell(b, true)
+	if err := pruned.WellFormed(); err != nil {
+		return fmt.Errorf("INFRA: generated pruned branch is not well formed: %v", err)
+	}
+	children := []*ref.RCell{pruned}
+	if second {
+		children = append(children, ref.NewRCell(ref.Bits{true, false, true}, false, ref.NewRCell(ref.Bits{true}, false)))
+	}
+	parent := ref.NewRCell(ref.Bits{}.AppendUint(seed, 24), false, children...)
+	worst := 0
+	for l := 0; l <= 3; l++ {
+		if d := parent.Depth(l); d > worst {
+			worst = d
+		}
+	}
+	parse := func(r *ref.RCell) (*boc.Cell, error) {
+		roots, err := boc.DeserializeBoc(ref.SerializeBOC([]*ref.RCell{r}, ref.BocVariant{}))
+		if err != nil {
+			return nil, err
+		}
+		return roots[0], nil
+	}
+	t, err := parse(parent)
+	if err != nil {
+		if worst > 1024 {
+			c.Class("over-deep cell refused at parse time")
+			return nil
+		}
+		return fmt.Errorf("DeserializeBoc of an ordinary cell over a pruned branch (mask %03b, stored depth #%d = %d, depths per level %d/%d/%d/%d): %v",
+			mask, at, big, parent.Depth(0), parent.Depth(1), parent.Depth(2), parent.Depth(3), err)
+	}
+	if worst > 1024 {
+		c.Class("depth above the limit at some level")
+		if parent.Depth(0) <= 1024 {
+			c.Class("depth above the limit at a higher level only")
+		}
+		if err := refusedAllWays(t); err != nil {
+			return fmt.Errorf("ordinary cell over a pruned branch (mask %03b) whose stored depth #%d is %d, depths of the cell per level %d/%d/%d/%d: %v",
+				mask, at, big, parent.Depth(0), parent.Depth(1), parent.Depth(2), parent.Depth(3), err)
+		}
+		return nil
+	}
+	c.Class("all depths within the limit")
+	if err := hashAllWays(t, parent, boc.NewHasher()); err != nil {
+		return fmt.Errorf("ordinary cell over a pruned branch (mask %03b) whose stored depth #%d is %d: %v", mask, at, big, err)
+	}
+	// the depths of the cell enter the hash of a cell above it
+	if worst < 1024 {
+		grand := ref.NewRCell(ref.Bits{true, true}, false, parent)
+		gt, err := parse(grand)
+		if err != nil {
+			return fmt.Errorf("constructing the cell above: %v", err)
+		}
+		if err := hashAllWays(gt, grand, boc.NewHasher()); err != nil {
+			return fmt.Errorf("cell above an ordinary cell over a pruned branch (mask %03b) whose stored depth #%d is %d: %v", mask, at, big, err)
+		}
+	}
 	return nil
 }}
 
@@ -336,6 +453,19 @@ func TestEnum(t *testing.T) {
 			}
 		}
 	})
+	core.RunEnum(t, levelDepthCheck, "ordinary cells over a pruned branch with every mask 1..7, each stored level carrying depth 0, 1, 1022..1025, 2000 or 65535, with and without a second child", func(yield func(...uint64) bool) {
+		for mask := 0; mask < 7; mask++ {
+			for at := 0; at < 3; at++ {
+				for _, d := range []int{0, 1, 1022, 1023, 1024, 1025, 2000, 65535} {
+					for second := 0; second < 2; second++ {
+						if !yield(uint64(mask), uint64(at), uint64(d), uint64(second), uint64(mask*1000+at*100+d)) {
+							return
+						}
+					}
+				}
+			}
+		}
+	})
 }
 
 // realCheck: tape = index of the harvested real BOC.
@@ -418,5 +548,5 @@ func TestReal(t *testing.T) {
 }
 
 func TestReplay(t *testing.T) {
-	core.Replay(t, dagCheck, lengthCheck, depthCheck, proverCheck, realCheck)
+	core.Replay(t, dagCheck, lengthCheck, depthCheck, levelDepthCheck, proverCheck, realCheck)
 }
